@@ -61,6 +61,17 @@ func HSetterSizes() {
 	}
 	if !accept {
 		vr.Assert("c14.refuse", err != nil)
+		// a refused set leaves no trace: the attribute is still absent and the packet encodes as an
+		// attribute-less one that the reference parser and the library's own decoder accept
+		_, gerr := a.GetAttr(t)
+		vr.Assert("c14.refuse.absent", gerr != nil)
+		e := &EAP{Code: EapCodeRequest, Identifier: vr.U8(), EapTypeData: a}
+		b, merr := e.Marshal()
+		vr.Assert("c14.refuse.marshal.noerr", merr == nil)
+		if merr == nil {
+			vr.Assert("c14.refuse.no-trace", len(b) == 8)
+			vr.Assert("c14.refuse.redecodes", new(EAP).Unmarshal(b) == nil)
+		}
 		return
 	}
 	vr.Assert("c14.accept", err == nil)
